@@ -198,6 +198,19 @@ def handle (sd : Side) (op : List String) (impl : List String) : Handled :=
     let p : Params := ⟨optBool opts "times", optBool opts "keys"⟩
     { side := { sd with disk := mapLast (segRecover p) sd.disk }, model := "ok" }
   | "pub" :: _n :: items =>
+    if items.any (fun t => t.endsWith ":!big") then
+      -- a batch with a message larger than the format takes is refused as a whole: nothing of it is
+      -- published, assigned or left in the files (what the files hold shows at the next reopen / scan)
+      let isErr := match impl with | "err" :: _ => true | _ => false
+      -- (log.Publish rolls a full head over before the batch is looked at: no content changes, the layout may)
+      let sd' := match sd.mlog with
+        | some l => if l.opts.readonly then sd else { sd with mlog := some l.rollover }
+        | none => sd
+      let model := match sd.mlog with
+        | some l => if l.opts.readonly then "err readonly" else "err other"
+        | none => closedRes
+      { side := sd', model := model, viols := viol isErr "PublishOK.oversize" }
+    else
     match parseBatch items with
     | none => { side := sd, model := "bad-op" }
     | some b =>
@@ -248,7 +261,19 @@ def handle (sd : Side) (op : List String) (impl : List String) : Handled :=
             | b :: v :: _ => (b.toInt?).map (fun bb => (bb, if v = "1" then Ver.v1 else Ver.v2))
             | _ => none) (segs.filter (fun t => !t.startsWith "extra:"))
         | _ => none
-      { side := { sd with fsVers := vers }, model := s!"ok {fmtDisk sd.params ds}" }
+      -- C17: which format version every segment file has is determined by the history and the version options
+      -- (rewritten segments keep or change version as configured, migrated ones are in the target version):
+      -- same segments, another version column = a violation, not only a difference
+      let modelToks := ((fmtDisk sd.params ds).splitOn " ").drop 1
+      let implToks' := match impl with | "ok" :: _ :: segs => segs.filter (fun t => !t.startsWith "extra:") | _ => []
+      let verOf := fun (t : String) => match t.splitOn ":" with
+        | [b, lv, _, iv, _] => some (b, lv, iv)
+        | _ => none
+      let vviol := modelToks.length == implToks'.length &&
+        (modelToks.zip implToks').any (fun (m, i) => match verOf m, verOf i with
+          | some (b1, lv1, iv1), some (b2, lv2, iv2) => b1 == b2 && (lv1 != lv2 || (iv1 != "-" && iv2 != "-" && iv1 != iv2))
+          | _, _ => false)
+      { side := { sd with fsVers := vers }, model := s!"ok {fmtDisk sd.params ds}", viols := if vviol then ["VersionsOK"] else [] }
     else { side := sd, model := "bad-op" }
   | ["cons", o, m] =>
     match o.toInt?, m.toNat? with
@@ -461,7 +486,8 @@ def handle (sd : Side) (op : List String) (impl : List String) : Handled :=
             | "trim", "age" => Helpers.thenDelete multi (Helpers.findByAge l x)
             | "compact", "upd" => Helpers.thenDelete multi (Helpers.findUpdates l x)
             | _, _ => Helpers.thenDelete multi (Helpers.findDeletes l x)
-          let singleVer := l.segs.all (fun sg => sg.ver == l.opts.nsv)
+          -- "single-version logs for the size bound" (C15): every log file and every index file in the version new files get
+          let singleVer := l.segs.all (fun sg => sg.ver == l.opts.nsv && (match sg.idxf with | some f => f.ver == l.opts.nsv | none => true))
           let pend := if grp = "trim" ∧ kind = "size" ∧ multi ∧ singleVer then some x else none
           { side := { sd with spec := spec', mlog := some l1, pendingSize := pend }, model := fmtMulti r, viols := v }
     else { side := sd, model := "bad-op" }
@@ -648,7 +674,25 @@ def processLine (st : DState) (raw : String) : DState :=
         else if op0 = "loss.img" then
           let vs := judgeLoss st.main.spec st.ackW implToks
           let out := vs.foldl (fun o v => o.push s!"VIOL {st.line} {v} {lhs} w={st.ackW} impl={(String.intercalate " " implToks).take 300}") st.out
-          { st with out := out, viols := st.viols + vs.length, counts := bump st.counts "loss.img" }
+          -- the loss model (Klev/Loss.lean): only the head's files have an unsynced tail
+          let headBase : Option Int := match st.main.mlog with
+            | some l => l.segs.getLast?.map (·.base)
+            | none => st.main.disk.getLast?.map (·.base)
+          let cutBases : List Int := match restOps.find? (·.startsWith "cuts=") with
+            | some t =>
+              -- the cuts of the first power loss (a second loss after recovery is listed behind `|`)
+              let first := (((t.drop 5).toString.splitOn "|").headD "")
+              (first.splitOn ",").filterMap (fun c =>
+                if c.contains ".rewrite" || c.contains ".tmp" || c.contains ".recover" || c.contains ".migrate" then none
+                else ((c.splitOn ".").headD "").toInt?)
+            | none => []
+          let outside := cutBases.filter (fun b => some b != headBase)
+          let again := (restOps.getD 1 "").contains '+'
+          let (out, nd) := if !outside.isEmpty && !again && st.main.msync then
+              (out.push s!"DIFF {st.line} loss-model {lhs} unsynced tail outside the head segment: bases {outside} head={headBase}", 1)
+            else (out, 0)
+          { st with out := out, viols := st.viols + vs.length, diffs := st.diffs + nd,
+                    counts := bump (bump st.counts "loss.img") (if outside.isEmpty then "loss.model:head-only" else "loss.model:OUTSIDE") }
         else
         if op0 = "fr.open" then { st with counts := bump st.counts "fr.open" }
         else if op0 = "fr.call" then
@@ -756,7 +800,8 @@ def processLine (st : DState) (raw : String) : DState :=
               | some "cbk", "ok" :: n :: _ => n.toInt?
               | _, _ => none
             let isHead := decide (d.hi ≥ 4611686018427387904)
-            let touchesSeg := msgs0.any (fun m => inSeg m.off) ||
+            let lookupErr := (callT.head? == some "gbt" || callT.head? == some "gbk" || callT.head? == some "obt" || callT.head? == some "obk") && r0.head? != some "ok"
+            let touchesSeg := lookupErr || msgs0.any (fun m => inSeg m.off) ||
               (match startOff with | some o => inSeg o || (o == -1 && isHead) | none => false) ||
               (match nxt0 with | some n => inSeg n | none => false)
             let includesDamaged := msgs0.any (fun m => d.recs.contains m.off)
